@@ -170,6 +170,7 @@ func TestVerifC08(t *testing.T) {
 		bounds = []int{0, 1, 2, 3, 4, -1}
 	}
 	idx := 0
+	complete := true
 	outcomesAll := map[string]bool{}
 	for _, yield := range []bool{false, true} {
 		for _, cfg := range configs {
@@ -182,6 +183,7 @@ func TestVerifC08(t *testing.T) {
 				if bound < 0 {
 					s.Visited = map[string]bool{}
 				}
+				s.Stop = run.OutOfBudget
 				st := &vs.Stats{}
 				outcomes := map[string]int{}
 				vs.Explore(mk, bound, s, func(x *vs.Exec) string {
@@ -203,13 +205,18 @@ func TestVerifC08(t *testing.T) {
 				for _, v := range st.Violations {
 					run.Violate(vf08Class(v.Msg), fmt.Sprintf("%v yield=%v %v", cfg, yield, v.Choices), fmt.Sprintf("threads=%v yieldFn=%v preemption bound %d: %s (schedule %v)", cfg, yield, bound, v.Msg, v.Threads), vf08Replay{cfg, yield, bound, v.Choices})
 				}
+				if st.Stopped {
+					complete = false
+					run.Note("time budget reached in configuration %v at preemption bound %d; lower bounds of it were completed", cfg, bound)
+					break
+				}
 				if len(st.Violations) > 0 {
 					break
 				}
 			}
 		}
 	}
-	run.Finish(true, fmt.Sprintf("%d thread configurations (2-3 threads, 4 in thorough; programs over A=acquire+CS+release, T=try, R=release-when-free) x yieldFn {nil, scheduler yield}: every schedule with <=%d preemptions and the unbounded state-pruned pass", len(configs), bounds[len(bounds)-2]),
+	run.Finish(complete, fmt.Sprintf("%d thread configurations (2-3 threads, 4 in thorough; programs over A=acquire+CS+release, T=try, R=release-when-free) x yieldFn {nil, scheduler yield}: every schedule with <=%d preemptions and the unbounded state-pruned pass", len(configs), bounds[len(bounds)-2]),
 		"stateless DFS with iterative preemption bounding over the real Go methods + interpreted real assembly; unbounded pass prunes on (lock word, harness counters, per-thread pc/registers); distinct = (configuration, outcome vector)")
 }
 
